@@ -38,6 +38,10 @@ func snodes() []snode {
 		{"union01>long", ref.Union(ref.Prim("null"), ref.Prim("long"))}, {"union10>string", ref.Union(ref.Prim("string"), ref.Prim("null"))},
 		{"union01>record", ref.Union(ref.Prim("null"), ref.Record("Ur", ref.F("a", ref.Prim("long"))))},
 		{"union01>double", ref.Union(ref.Prim("null"), ref.Prim("double"))},
+		// multi-branch unions: sound only with a Go type that suits EVERY branch
+		{"union[long,string]", ref.Union(ref.Prim("long"), ref.Prim("string"))},
+		{"union[null,long,string]", ref.Union(ref.Prim("null"), ref.Prim("long"), ref.Prim("string"))},
+		{"union[int,long]", ref.Union(ref.Prim("int"), ref.Prim("long"))},
 	}
 }
 
@@ -124,13 +128,21 @@ func sound(s *ref.Schema, t reflect.Type) verdict {
 		return any // nothing is ever stored
 	}
 	if s.Type == "union" {
-		var x *ref.Schema
+		// every non-null branch may turn up in the data: all of them must suit the Go type
+		v := yes
+		n := 0
 		for _, b := range s.Branches {
 			if b.Type != "null" {
-				x = b
+				n++
+				if sound(b, t) == no {
+					v = no
+				}
 			}
 		}
-		return sound(x, t)
+		if n == 0 {
+			return any
+		}
+		return v
 	}
 	if t.Kind() == reflect.Ptr {
 		return sound(s, t.Elem())
@@ -569,6 +581,8 @@ func pairs(tier string) []pairCase {
 	return ps
 }
 
+var parsedSchemas = map[string]avro.Schema{}
+
 func runPair(c *fw.Ctx, k int, pc pairCase) {
 	fs := pc.pos.wrapS(pc.sn.s)
 	ft := pc.pos.wrapT(pc.gt.t)
@@ -583,11 +597,16 @@ func runPair(c *fw.Ctx, k int, pc pairCase) {
 	var codec avro.Codec
 	var err error
 	if c.Guard(locus+"|build", desc, desc, func() {
-		var s avro.Schema
-		s, err = avro.SchemaFromString(schemaJSON)
-		if err == nil {
-			codec, err = s.Codec(reflect.New(pt).Elem().Interface())
+		// one parsed Schema value per document, used for every Go type it is paired with (parse once, build many)
+		s, ok := parsedSchemas[schemaJSON]
+		if !ok {
+			s, err = avro.SchemaFromString(schemaJSON)
+			if err != nil {
+				return
+			}
+			parsedSchemas[schemaJSON] = s
 		}
+		codec, err = s.Codec(reflect.New(pt).Elem().Interface())
 	}) {
 		return
 	}
@@ -794,7 +813,7 @@ func init() {
 			if tier == "thorough" {
 				p = "8 positions (direct, behind pointer, slice element, map value, slice of maps, nullable pointer, map of slices, pointer to pointer)"
 			}
-			return "the full matrix of 24 schema nodes (null, boolean, int, long, float, double, bytes, string, fixed 0/1/3/4/8/16/17, record, enum, arrays, map, unions with null first/second) × 55 Go types (bool, every signed/unsigned width, uintptr, floats, complex, string, named kinds, byte slices/arrays of every listed length, slices, arrays, maps with string/named/int/array keys, structs, pointers, interface, chan, func, unsafe.Pointer) × " + p + "; oracle: a soundness table written from the documented mapping — an unsound pair must be refused by Schema.Codec; for every pair that builds, every datum of the schema's full alphabet (in-range and out-of-range; collections as one plain block, one size-prefixed block and one size-prefixed block per item) is decoded into the middle element of a 3-element array of struct{c0 uint64; F G; c1 uint8; sibling; c2 uint64} and into a pre-sized canary-patterned slice: canaries, sibling, guard elements and trailing slice capacity must be byte-identical, the field must hold the reference value, out-of-range integers must be errors; every byte value 0..255 as a boolean into bool, *bool, []bool, map[string]bool, [null,boolean]→*bool and a named bool: a stored Go bool must hold 0 or 1 (or the decode fails); each pair runs in an isolated worker (a crash is a violation of that pair); non-trivial = a distinct (schema, type, position) triple"
+			return "the full matrix of 27 schema nodes (null, boolean, int, long, float, double, bytes, string, fixed 0/1/3/4/8/16/17, record, enum, arrays, map, unions with null first/second, multi-branch unions; each document parsed once and its Schema value reused for every Go type) × 55 Go types (bool, every signed/unsigned width, uintptr, floats, complex, string, named kinds, byte slices/arrays of every listed length, slices, arrays, maps with string/named/int/array keys, structs, pointers, interface, chan, func, unsafe.Pointer) × " + p + "; oracle: a soundness table written from the documented mapping — an unsound pair must be refused by Schema.Codec; for every pair that builds, every datum of the schema's full alphabet (in-range and out-of-range; collections as one plain block, one size-prefixed block and one size-prefixed block per item) is decoded into the middle element of a 3-element array of struct{c0 uint64; F G; c1 uint8; sibling; c2 uint64} and into a pre-sized canary-patterned slice: canaries, sibling, guard elements and trailing slice capacity must be byte-identical, the field must hold the reference value, out-of-range integers must be errors; every byte value 0..255 as a boolean into bool, *bool, []bool, map[string]bool, [null,boolean]→*bool and a named bool: a stored Go bool must hold 0 or 1 (or the decode fails); each pair runs in an isolated worker (a crash is a violation of that pair); non-trivial = a distinct (schema, type, position) triple"
 		},
 		Assumptions: []string{
 			"a sound pair that the library refuses is not a violation (the statement allows failing)",
